@@ -80,11 +80,23 @@ def check_schema(schema, acc=None):
                                                       f'the source text describes {sorted({r for r, _ in want})}')
             except Exception as e:  # noqa
                 bad(f'match-raises:{type(e).__name__}@{tb_where(e)}|no-symbols', f'match(/{"/".join(toks)}) raised {e!r}')
+        if not viol and want:
+            # a packet's full name ends with its implicit digest: the schema does not talk about that component
+            try:
+                gotd = lib_matches(ck, list(name) + [IMPLICIT_DIGEST], ids)
+                if gotd != want:
+                    bad('digest-suffix-changes-match', f'name /{"/".join(toks)} followed by an implicit digest component: library reports {fmt(gotd)}, '
+                                                       f'without the digest {fmt(want)}')
+            except Exception as e:  # noqa
+                bad(f'match-raises:{type(e).__name__}@{tb_where(e)}|with-digest', f'match(/{"/".join(toks)}/<digest>) raised {e!r}')
         if viol:
             break
     if acc is not None:
         acc.transitions += 3 * n
     return ('ok' if not viol else 'viol'), viol
+
+
+IMPLICIT_DIGEST = bytes([1, 32]) + bytes(range(32))
 
 
 def fmt(s):
@@ -95,6 +107,8 @@ def plan(tier, seed):
     n = sum(1 for _ in lvsgen.schemas(tier))
     chunk = 600 if tier == 'quick' else 6000
     units = [{'lo': lo, 'hi': min(n, lo + chunk), 'tier': tier} for lo in range(0, n, chunk)]
+    units.append({'special': 'wide', 'tier': tier})
+    units.append({'special': 'two-checkers', 'tier': tier})
     return {
         'units': units,
         'rule': 'program = schema of the bounded grammar (complete enumeration); for each, every name of length 0..Lmax+1 (at most 5) over '
@@ -107,7 +121,108 @@ def plan(tier, seed):
     }
 
 
+def wide_schemas():
+    """schemas with more than nine named patterns (pattern numbers with two digits), later patterns repeated and constrained"""
+    pats = [['pat', f'p{i}'] for i in range(12)]
+    yield [{'id': '#w', 'name': pats + [['pat', 'p11'], ['pat', 'p0']], 'cons': [], 'sign': []}]
+    yield [{'id': '#w', 'name': pats + [['pat', 'p10']], 'cons': [[['p11', [['pat', 'p9']]]]], 'sign': []}]
+    yield [{'id': '#k', 'name': pats[:6], 'cons': [], 'sign': []},
+           {'id': '#w', 'name': [['ref', '#k']] + pats[6:] + [['pat', 'p11']], 'cons': [[['p10', [['fn', '$eq', [['pat', 'p2']]]]]]], 'sign': []}]
+
+
+def wide_queries(n):
+    base = ['a'] * n
+    yield tuple(base)
+    for pos in range(n):
+        q = list(base)
+        q[pos] = 'b'
+        yield tuple(q)
+    yield tuple(['a', 'b'] * (n // 2) + ['a'] * (n % 2))
+    yield tuple(base[:-1])
+    yield tuple(base + ['a'])
+
+
+def check_wide(schema):
+    viol = []
+    text = lvs_ref.render(schema)
+    ids = set(lvs_ref.rule_ids(schema))
+    try:
+        ck = Checker(compile_lvs(text), FNS)
+        ck2 = Checker.load(ck.save(), FNS)
+    except Exception as e:  # noqa
+        return [(f'C11|wide|compile-raises:{type(e).__name__}@{tb_where(e)}', f'{e!r}; schema:\n{text}')]
+    ref = lvs_ref.RefSchema(schema, FNS)
+    for toks in wide_queries(ref.max_len()):
+        name = comp_name(toks)
+        want = ref.match(name)
+        for label, c in (('compiled', ck), ('loaded', ck2)):
+            try:
+                got = lib_matches(c, list(name), ids)
+            except Exception as e:  # noqa
+                viol.append((f'C11|wide|match-raises:{type(e).__name__}@{tb_where(e)}', f'{e!r}'))
+                return viol
+            if got != want:
+                viol.append((f'C11|wide|different-matches|{label}', f'name /{"/".join(toks)}: library reports {fmt(got)}, the source text describes '
+                                                                    f'{fmt(want)}; schema:\n{text}'))
+                return viol
+    return viol
+
+
+def check_two_checkers(schema):
+    """two checkers in one process that define the same user function differently: each evaluates with its own"""
+    viol = []
+    text = lvs_ref.render(schema)
+    ids = set(lvs_ref.rule_ids(schema))
+    never = {'$eq': lambda c, args: False}
+    try:
+        model = compile_lvs(text)
+        first = Checker(model, FNS)
+        second = Checker(compile_lvs(text), never)
+    except Exception as e:  # noqa
+        return [(f'C11|two-checkers|compile-raises:{type(e).__name__}', f'{e!r}')]
+    for ck, fns, label in ((first, FNS, 'first'), (second, never, 'second'), (first, FNS, 'first-again')):
+        ref = lvs_ref.RefSchema(schema, fns)
+        for toks in lvsgen.query_names(min(ref.max_len() + 1, 4)):
+            name = comp_name(toks)
+            want = ref.match(name)
+            got = lib_matches(ck, list(name), ids)
+            if got != want:
+                viol.append((f'C11|two-checkers|different-matches|{label}', f'name /{"/".join(toks)}: the {label} checker reports {fmt(got)}, with its own '
+                                                                            f'user functions the source text describes {fmt(want)}; schema:\n{text}'))
+                return viol
+    return viol
+
+
+def fn_schemas():
+    for nm in ([['lit', 'a'], ['pat', 'x']], [['pat', 'x'], ['pat', 'y']], [['pat', 'y'], ['lit', 'a'], ['pat', 'x']]):
+        for opts in ([['fn', '$eq', [['lit', 'a']]]], [['fn', '$eq', [['pat', 'y']]]] if any(e == ['pat', 'y'] for e in nm) else [['fn', '$eq', [['lit', 'b']]]],
+                     [['lit', 'b'], ['fn', '$eq', [['lit', 'a']]]]):
+            yield [{'id': '#r', 'name': nm, 'cons': [[['x', opts]]], 'sign': []}]
+
+
+def unit_special(arg):
+    acc = Acc()
+    acc.state_hashes = None
+    install_lark_cache()
+    gen = wide_schemas() if arg['special'] == 'wide' else fn_schemas()
+    fn = check_wide if arg['special'] == 'wide' else check_two_checkers
+    for schema in gen:
+        viol = fn(schema)
+        acc.evaluations += 1
+        acc.state_count += 1
+        acc.transitions += 20
+        acc.nontrivial += 1
+        acc.outcome(f"{arg['special']}|{'ok' if not viol else 'viol'}")
+        acc.observe([lvs_ref.render(schema), [v[0] for v in viol]])
+        for sig, what in viol:
+            acc.violation(sig, what, {'special': arg['special'], 'schema': schema})
+    acc.sample({'special': arg['special'], 'last_schema': lvs_ref.render(schema)})
+    return acc
+
+
 def unit(arg):
+    if 'special' in arg:
+        return unit_special(arg)
     acc = Acc()
     acc.state_hashes = None
     install_lark_cache()
@@ -130,5 +245,8 @@ def unit(arg):
 
 def replay(case):
     install_lark_cache()
+    if 'special' in case:
+        viol = (check_wide if case['special'] == 'wide' else check_two_checkers)(case['schema'])
+        return [{'sig': s, 'what': w} for s, w in viol]
     _, viol = check_schema(case['schema'])
     return [{'sig': s, 'what': w} for s, w in viol]
